@@ -18,7 +18,7 @@ META = {
     },
 }
 
-TYPES = (('NA', 3), ('N__U_', 2), ('NB', 1), ('NC', 1), ('NJ', 3), ('NF', 2), ('NP', 2))
+TYPES = (('NA', 2), ('_ple', 1), ('N__U_', 2), ('NB', 1), ('NC', 1), ('NJ', 3), ('NF', 2), ('NP', 2))
 
 
 def one(rep, rng, j):
